@@ -611,8 +611,10 @@ func fsAccess(path string, write bool, site string) {
 	if !active || cur == nil {
 		return
 	}
-	if abs, err := filepath.Abs(path); err == nil {
-		path = abs
+	if path != cwdKey {
+		if abs, err := filepath.Abs(path); err == nil {
+			path = abs
+		}
 	}
 	FSAccesses++
 	me := cur
@@ -658,14 +660,31 @@ func fsHook(path string, write bool, site string) {
 }
 
 // FSW / FSR are identity functions on a path argument.
+// cwdKey names the process's working directory as a shared location.
+const cwdKey = "<working directory of the process>"
+
+func relRead(path, site string) {
+	if path != "" && path[0] != '/' {
+		fsAccess(cwdKey, false, site)
+	}
+}
+
+// FSChdir: os.Chdir(path) writes the working directory.
+func FSChdir(path string, site string) string {
+	fsAccess(cwdKey, true, site)
+	return path
+}
+
 func FSW(path string, site string) string {
 	fsHook(path, true, site)
+	relRead(path, site)
 	fsAccess(path, true, site)
 	return path
 }
 
 func FSR(path string, site string) string {
 	fsHook(path, false, site)
+	relRead(path, site)
 	fsAccess(path, false, site)
 	return path
 }
